@@ -44,6 +44,10 @@ field: item = [r.item for r in orders if r.amount == txn.amount]
 [Ordered]
 match: (hits := [r for r in orders if r.amount == txn.amount]) and len(hits) > 0 and (z := 1) > 0
 tags: ordered
+
+[Dated]
+match: len([r for r in orders if r.amount == txn.amount and r.when >= "2025-01-01"]) > 0
+tags: dated
 '''
 R2 = '''# rules two: same rule names and expression texts, different meaning
 big = amount > 400
@@ -162,8 +166,10 @@ TXNS = {
     't4': dict(description='Charlie Shop 99', amount=30.0, date=datetime.date(2024, 12, 31),
                field=None, source='Bank', location=None, ds='alt'),
 }
-DATA_SOURCES = {'orders': [{'item': 'Widget', 'amount': 30.0}, {'item': 'Gadget', 'amount': 50.0}]}
-DATA_SOURCES_ALT = {'orders': [{'item': 'Paperback', 'amount': 30.0}, {'item': 'Tent', 'amount': 2000.0}]}
+# (a supplemental row's date cell is a date when it could be read as one and the cell's text otherwise: the SAME comparison meets
+#  a date for one transaction and a text for the next)
+DATA_SOURCES = {'orders': [{'item': 'Widget', 'amount': 30.0, 'when': datetime.date(2025, 2, 1)}, {'item': 'Gadget', 'amount': 50.0, 'when': 'Pending'}]}
+DATA_SOURCES_ALT = {'orders': [{'item': 'Paperback', 'amount': 30.0, 'when': 'n/a'}, {'item': 'Tent', 'amount': 2000.0, 'when': datetime.date(2024, 5, 5)}]}
 
 
 def _ds(t):
